@@ -635,7 +635,7 @@ fn main() {
     }
     let hvals = ["0", "1", "-1", "23", "2562047788", "2562047789", "-2562047788", "-2562047789", "2562047787", "9223372036854775807", "", "x", "+5"];
     let mvals = ["0", "1", "59", "-1", "153722867280", "153722867281", "912930", "912931", "-153722867281", "", "y"];
-    let svals = ["0", "1", "59.5", "-1", "9223372036854", "9223372036855", "54.775807", "54.775808", "0.999999", "0.9999999", ".5", "5.", "1.-5", "1.+5", "-9223372036854.775808", "9223372036854.775807", "1.aééééé", "1.éééééé", "1.12345é", "1.1234€", "1.𝟑𝟑", "1.1𝟑", "", "z"];
+    let svals = ["0", "1", "59.5", "-1", "9223372036854", "9223372036855", "54.775807", "54.775808", "0.999999", "0.9999999", ".5", "5.", "1.-5", "1.+5", "-9223372036854.775808", "9223372036854.775807", "9223372036854.775808", "-9223372036854.-775808", "-9223372036854.-775809", "9223372036854.999999", "1.aééééé", "1.éééééé", "1.12345é", "1.1234€", "1.𝟑𝟑", "1.1𝟑", "", "z"];
     for h in hvals {
         for m in mvals {
             for s in svals {
